@@ -122,6 +122,8 @@ func (g *refGen) authenSess(scope string, flags uint8) SessScript {
 		}
 		s.Tag = "ascii-boundary"
 		return s
+	case c == 18: // a password with an octet above 0x7f (the CONTINUE is hand-encoded by the peer)
+		return SessASCII(g.nextSid(), flags, user, pw+"\xc3\xa4", r.Bool(), -1)
 	case c == 17: // empty user / empty password PAP
 		return SessPAP(g.nextSid(), 0xc1, flags, PickOf(r, "", user), PickOf(r, "", pw))
 	default:
@@ -174,9 +176,9 @@ func genRef(r *Rand, p *Plan, tier string, focus string) {
 	g := &refGen{r: r, d: d, sid: uint32(r.Intn(1 << 20))}
 	g.names, g.pws = DocUsers(d)
 	p.Scen.Docs = []model.Doc{d}
-	nCli := 1 + r.Intn(3)
+	nCli := 1 + r.Intn(up(3))
 	if focus == "C13" {
-		nCli = 2 + r.Intn(4)
+		nCli = 2 + r.Intn(up(4))
 	}
 	for ci := 0; ci < nCli; ci++ {
 		scopeIdx := r.Intn(len(d.Secrets))
@@ -203,6 +205,8 @@ func genRef(r *Rand, p *Plan, tier string, focus string) {
 			}
 		case "C07":
 			wrongKey = r.Chance(8)
+		case "C18":
+			wrongKey = r.Chance(12) // the key-mismatch path logs too
 		}
 		if wrongKey {
 			other := d.Secrets[r.Intn(len(d.Secrets))].Secret.Key
@@ -218,10 +222,28 @@ func genRef(r *Rand, p *Plan, tier string, focus string) {
 		if focus == "C19" && r.Chance(25) {
 			flags = 1 // clear flag with a wrong key: must never be flagged
 		}
-		nSess := 1 + r.Intn(4)
+		nSess := 1 + r.Intn(up(4))
 		var scripts []SessScript
 		for k := 0; k < nSess; k++ {
 			var s SessScript
+			if focus == "C19" && r.Chance(20) {
+				// the smallest legal requests: every variable field empty
+				switch r.Intn(4) {
+				case 0:
+					s = SessAuthor(g.nextSid(), r.version(), flags, "", nil)
+					s.Pkts[0].Body.S = [][]byte{{}, {}, {}}
+				case 1:
+					s = SessPAP(g.nextSid(), 0xc1, flags, "", "")
+					s.Pkts[0].Body.S = [][]byte{{}, {}, {}, {}}
+				case 2:
+					s = SessAcct(g.nextSid(), r.version(), flags, 1, "", 2, nil)
+					s.Pkts[0].Body.S = [][]byte{{}, {}, {}}
+				default:
+					s = SessScript{Tag: "min-continue", Pkts: []*PktSpec{{Ver: 0xc0, Type: model.TypeAuthen, Seq: 1, Flags: flags, Session: g.nextSid(), Body: contBody(0, "", "")}}}
+				}
+				scripts = append(scripts, s)
+				continue
+			}
 			switch focus {
 			case "C10", "C18":
 				s = g.authenSess(scope, flags)
@@ -231,6 +253,9 @@ func genRef(r *Rand, p *Plan, tier string, focus string) {
 				s = g.acctSess(scope, flags, true)
 			case "C13":
 				u := g.pickUser(scope)
+				if r.Chance(35) && len(g.names) > 0 {
+					u = g.names[r.Intn(len(g.names))] // any user of the document, whatever its scopes
+				}
 				s = SessPAP(g.nextSid(), 0xc1, flags, u, g.pws[u])
 			default:
 				switch r.Intn(3) {
@@ -259,7 +284,14 @@ func genRef(r *Rand, p *Plan, tier string, focus string) {
 			case 3:
 				bad.Type = 9
 			}
-			cs.Ops = append(cs.Ops, Op{Kind: "send", Pkt: &bad}, Op{Kind: "idle"})
+			cs.Ops = append(cs.Ops, Op{Kind: "send", Pkt: &bad})
+			if r.Chance(60) {
+				// a perfectly good request right behind the rejected packet: it must not be processed
+				good := *scripts[0].Pkts[0]
+				good.Session = g.nextSid()
+				cs.Ops = append(cs.Ops, Op{Kind: "send", Pkt: &good})
+			}
+			cs.Ops = append(cs.Ops, Op{Kind: "idle"})
 		}
 		if r.Chance(50) {
 			cs.Ops = append(cs.Ops, Op{Kind: "close"})
@@ -345,7 +377,7 @@ func genC14(r *Rand, p *Plan, tier string) {
 	g.names, g.pws = DocUsers(d)
 	p.Scen.Docs = []model.Doc{d}
 	p.Scen.Faulty = false
-	nHost := 1 + r.Intn(3)
+	nHost := 1 + r.Intn(up(3))
 	idx := 0
 	addControl := func(notBefore int) {
 		scopeIdx := r.Intn(len(d.Secrets))
@@ -450,7 +482,7 @@ func genC09(r *Rand, p *Plan, tier string) {
 	g := &refGen{r: r, d: d, sid: uint32(r.Intn(1 << 20))}
 	g.names, g.pws = DocUsers(d)
 	p.Scen.Docs = []model.Doc{d}
-	nCli := 1 + r.Intn(4)
+	nCli := 1 + r.Intn(up(4))
 	sameIDs := r.Chance(40) // equal session ids on different connections
 	for ci := 0; ci < nCli; ci++ {
 		scopeIdx := r.Intn(len(d.Secrets))
@@ -461,7 +493,7 @@ func genC09(r *Rand, p *Plan, tier string) {
 		if sameIDs {
 			g.sid = 4242
 		}
-		k := 2 + r.Intn(7)
+		k := 2 + r.Intn(up(7))
 		var scripts []SessScript
 		for j := 0; j < k; j++ {
 			switch r.Intn(6) {
@@ -620,6 +652,20 @@ func genC16e2e(r *Rand, p *Plan, tier string) {
 		nd.Normalize()
 		docs = append(docs, nd)
 	}
+	if r.Chance(40) && len(d.Secrets) > 0 && len(d.Secrets[0].Prefixes) > 0 {
+		// targeted: the first document filters part of a scope's prefix, the next one has
+		// no filters at all; clients from the filtered range come back after the reload
+		pfx := d.Secrets[0].Prefixes[0]
+		if r.Bool() {
+			docs[0].PrefixDeny, docs[0].PrefixAllow = []string{pfx}, nil
+		} else {
+			docs[0].PrefixDeny, docs[0].PrefixAllow = nil, []string{"192.0.2.0/24"}
+		}
+		nd := docs[0].Clone()
+		nd.PrefixDeny, nd.PrefixAllow = nil, nil
+		nd.Normalize()
+		docs = []model.Doc{docs[0], nd}
+	}
 	p.Scen.Docs = docs
 	step := 0
 	idx := 0
@@ -679,7 +725,7 @@ func genC16(r *Rand, p *Plan, tier string) {
 		d.PrefixDeny = []string{"10.200.0.0/16"}
 	}
 	ls := &LoaderScen{}
-	n := 2 + r.Intn(6)
+	n := 2 + r.Intn(up(6))
 	cur := d
 	for i := 0; i < n; i++ {
 		if i > 0 {
@@ -755,7 +801,7 @@ func genAtomicReload(r *Rand, p *Plan, tier string) {
 		p.Scen.Ctl = append(p.Scen.Ctl, Ctl{Kind: "publish", N: v, NotBefore: step})
 		step += 3 + r.Intn(12)
 	}
-	n := 2 + r.Intn(6)
+	n := 2 + r.Intn(up(6))
 	for i := 0; i < n; i++ {
 		p.Scen.Clients = append(p.Scen.Clients, ClientSpec{Addr: fmt.Sprintf("10.%d.2.3:%d", 1+r.Intn(3), 40000+i), NotBefore: r.Intn(step + 5)})
 	}
@@ -816,7 +862,7 @@ func genC15(r *Rand, p *Plan, tier string) {
 		}
 	}
 	p.Scen.Docs = docs
-	nCli := 2 + r.Intn(4)
+	nCli := 2 + r.Intn(up(4))
 	// everybody works as the same user so that per-user state is shared
 	user := g.pickUser(d.Secrets[0].Name)
 	for ci := 0; ci < nCli; ci++ {
